@@ -58,6 +58,11 @@ Definition tree_judge {Vr} `{EqDec Vr} (G : cfg Vr) (t : tree Vr) (w : list N) :
   (tree_ok G t, eqb (yield t) w, match g_start G with Some s => eqb (root t) (V s) | None => false end).
 Definition first_of {Vr} `{EqDec Vr} (G : cfg Vr) (A : Vr) : list (option N) :=
   map snd (filter (fun p => eqb A (fst p)) (first_set G)).
+(* the whole table at once (the sets are computed once) *)
+Definition first_follow_table {Vr} `{EqDec Vr} (G : cfg Vr) (vs : list Vr) : list (Vr * list (option N) * list (option N)) :=
+  let fs := first_set G in
+  let fw := follow_set G in
+  map (fun A => (A, map snd (filter (fun p => eqb A (fst p)) fs), map snd (filter (fun p => eqb A (fst p)) fw))) vs.
 Definition follow_of {Vr} `{EqDec Vr} (G : cfg Vr) (A : Vr) : list (option N) :=
   map snd (filter (fun p => eqb A (fst p)) (follow_set G)).
 
